@@ -45,6 +45,9 @@ inline std::size_t cache::index(const hash_t &h) const
 void cache::clear()
 {
   std::unique_lock lock(mutex_);
+#if defined(VITA_VERIF)
+  verif::sp(30);
+#endif
 
   ++seal_;
 
@@ -63,6 +66,9 @@ void cache::clear()
 void cache::clear(const hash_t &h)
 {
   std::unique_lock lock(mutex_);
+#if defined(VITA_VERIF)
+  verif::sp(40);
+#endif
 
   table_[index(h)].hash = hash_t();
 
@@ -81,9 +87,15 @@ void cache::clear(const hash_t &h)
 const fitness_t &cache::find(const hash_t &h) const
 {
   std::shared_lock lock(mutex_);
+#if defined(VITA_VERIF)
+  verif::sp(10);
+#endif
 
   const slot &s(table_[index(h)]);
   const bool ret(seal_ == s.seal && h == s.hash);
+#if defined(VITA_VERIF)
+  verif::sp(11);
+#endif
 
   if (ret)
     return s.fitness;
@@ -102,11 +114,17 @@ const fitness_t &cache::find(const hash_t &h) const
 void cache::insert(const hash_t &h, const fitness_t &fitness)
 {
   std::unique_lock lock(mutex_);
+#if defined(VITA_VERIF)
+  verif::sp(20);
+#endif
 
   slot s;
   s.hash    =       h;
   s.fitness = fitness;
   s.seal    =   seal_;
+#if defined(VITA_VERIF)
+  verif::sp(21);
+#endif
 
   table_[index(s.hash)] = s;
 }
